@@ -491,14 +491,13 @@ end Rpki.CertDer
 namespace Rpki.CertDer
 open Rpki.Der Rpki.Chain
 
-/-- **Whatever octets decode as a certificate, its claimed resources are canonical chains.** -/
-theorem decodeCert_canon (b : Bytes) (d : Decoded) (hb : AllBytes b) (h : decodeCert b = some d) :
+theorem takeCert_canon (b : Bytes) (d : Decoded) (rest : Bytes) (hb : AllBytes b) (h : takeCert b = some (d, rest)) :
     ClaimCanon IpDer.maxAddr d.v4 ∧ ClaimCanon IpDer.maxAddr d.v6 ∧ ClaimCanon AsDer.maxAs d.asn := by
-  unfold decodeCert at h
+  unfold takeCert at h
   cases h0 : takeCons tagSeq b with
   | none => simp [h0] at h
   | some q0 =>
-    obtain ⟨c, _⟩ := q0
+    obtain ⟨c, rest0⟩ := q0
     have b0 := allBytes_of_sub hb (AsDer.takeCons_sub _ _ _ _ h0).1
     simp only [h0] at h
     split at h
@@ -512,7 +511,24 @@ theorem decodeCert_canon (b : Bytes) (d : Decoded) (hb : AllBytes b) (h : decode
         repeat' (split at h)
         all_goals first
           | (cases h; done)
-          | exact decodeTbs_canon _ _ _ d braw h
+          | skip
+        rw [Option.map_eq_some_iff] at h
+        obtain ⟨d', hd, e⟩ := h
+        injection e with e1 _
+        subst e1
+        exact decodeTbs_canon _ _ _ d' braw hd
+
+/-- **Whatever octets decode as a certificate, its claimed resources are canonical chains.** -/
+theorem decodeCert_canon (b : Bytes) (d : Decoded) (hb : AllBytes b) (h : decodeCert b = some d) :
+    ClaimCanon IpDer.maxAddr d.v4 ∧ ClaimCanon IpDer.maxAddr d.v6 ∧ ClaimCanon AsDer.maxAs d.asn := by
+  unfold decodeCert at h
+  cases ht : takeCert b with
+  | none => simp [ht] at h
+  | some p =>
+    obtain ⟨d', rest⟩ := p
+    simp only [ht, Option.map_some, Option.some.injEq] at h
+    subst h
+    exact takeCert_canon b d' rest hb ht
 
 /-- the same for the record validation works on: IPv4 counted in 32 bits -/
 theorem shiftV4_canon (cl : Claim) (h : ClaimCanon IpDer.maxAddr cl) : ClaimCanon (2 ^ 32 - 1) (shiftV4 cl) := by
